@@ -57,6 +57,26 @@ def gen(repo):
     out.append("/-- checked on the C text by tools/consts/c03.py: SendRectEncodingTight searches for solid areas\n"
                "exactly when `!(!enableLastRectEncoding || w*h < MIN_SPLIT_RECT_SIZE)` -/")
     out.append("def tightSearchGuardChecked : Bool := true")
+    # rfbSendCompressedDataTight: from which length on the second / third byte of Tight's compact
+    # length is written (the conditions are read from the C text, whatever way they are spelled)
+    body = tight[tight.index("rfbBool rfbSendCompressedDataTight("):]
+    body = body[:body.index("portionLen = UPDATE_BUF_SIZE")]
+    conds = re.findall(r"if \(compressedLen\s*(>=|>)\s*([0-9a-fA-Fx<\s()]+?)\)\s*\{", body)
+    if len(conds) != 2:
+        raise RuntimeError("rfbSendCompressedDataTight: expected two length tests, found %d" % len(conds))
+    froms = []
+    for op_, ex in conds:
+        if not re.fullmatch(r"[0-9a-fA-Fx<\s()]+", ex):
+            raise RuntimeError("unreadable length bound %r" % ex)
+        v = int(eval(ex, {"__builtins__": {}}, {}))
+        froms.append(v if op_ == ">=" else v + 1)
+    masks = re.findall(r"compressedLen\s*(?:>>\s*(\d+)\s*)?&\s*(0x[0-9A-Fa-f]+)", body)
+    if [(m[0] or "0", m[1].lower()) for m in masks] != [("0", "0x7f"), ("7", "0x7f"), ("14", "0xff")]:
+        raise RuntimeError("rfbSendCompressedDataTight: byte extraction changed: %r" % (masks,))
+    out.append("/-- rfbSendCompressedDataTight writes a second length byte for lengths ≥ this -/")
+    out.append("def compactTwoFrom : Nat := %d" % froms[0])
+    out.append("/-- … and a third one for lengths ≥ this -/")
+    out.append("def compactThreeFrom : Nat := %d" % froms[1])
     srv = open(os.path.join(repo, "src/libvncserver/rfbserver.c")).read()
     out.append("def correMaxWidth : Nat := %d" % _one(srv, r"cl->correMaxWidth\s*=\s*(\d+)\s*;", "correMaxWidth"))
     out.append("def correMaxHeight : Nat := %d" % _one(srv, r"cl->correMaxHeight\s*=\s*(\d+)\s*;", "correMaxHeight"))
